@@ -12,6 +12,18 @@ TRUST = ("Trusted: Coq 8.16.1 kernel (full .vo build), extraction with ExtrOcaml
          "working tree on every run. ")
 
 CHECKS = {
+    "C17": dict(
+        text="Proof (partial): translating scene, source and receivers leaves baked factors, slot maps, delays, initial "
+             "energies, patch histograms, patch-wise and mono curves of the executable model IDENTICAL (everything depends "
+             "on positions through differences); relabelling invariance of the recursion under any patch renumbering with "
+             "permuted pair list (what axis permutations induce); distances and all delay bins are preserved by "
+             "orthogonal maps + translation; pt_solution / Stokes(translation) / tiling(translation) kernel invariances "
+             "collected; visibility invariant given equal point-in-polygon answers; rescaling wall normal/up changes no "
+             "BRDF direction. NOT carried: the 0.5%-of-peak bound under axis permutations (Nusselt asymmetry; measured), "
+             "Stokes under rotations/scalings, Nusselt branch, point-in-polygon under rotations.",
+        note=TRUST + "That the baked kernel data of a placed scene are the sigma-transported data is established per "
+             "scene by the harness (matching patch centres), not by a theorem.",
+        technique="Coq proof (ring identities, Permutation-invariant sums) + extracted-model correspondence", ref="5/C17"),
     "C05": dict(
         text="Proof (partial): invisible pairs have exactly zero stored / full / baked factors; A_i ff_full i j = "
              "A_j ff_full j i for the area-ratio rule (field); the Stokes double Boole sum is symmetric in the two "
